@@ -74,6 +74,9 @@ def build_corpus(tier, rng):
     # lifetimes (EnumIs / EnumTryAs accept them)
     items.append(("lifetime", Item("E", [Variant("Borrowed", "tuple", [Field("&'l0 str"), Field("u8")]), Variant("Owned", "tuple", [Field("String")]),
                                         Variant("Nothing", "unit")], lifetimes=1)))
+    # every option of the other derives around `disabled` (before / after it, one list / several): predicates and accessors follow `disabled` only
+    for it_ in G.foreign_option_items(rng, 60 if thorough else 14, tag="M"):
+        items.append(("foreign-options", it_))
     if G.NO_PROBE:       # nobody can name the methods of non-ASCII identifiers without the probe
         for _, it_ in items:
             it_.variants = [v for v in it_.variants if v.ident.isascii()]
